@@ -5,7 +5,8 @@ import "github.com/mmcloughlin/avo/ir"
 func init() { props["C02"] = c02 }
 
 func c02(c *Ctx) {
-	defer maskSetFile(c) // reg/set.go: the set algebra liveness is computed with
+	defer maskSetFile(c)                            // reg/set.go: the set algebra liveness is computed with
+	defer declaredActionsCheck(c, "liveness", true) // the reads/writes liveness starts from include the implicit operands
 	rng := NewRNG(c.Seed)
 	n := 320
 	if c.Thorough() {
